@@ -14,8 +14,8 @@ TRUSTED_COMMON = [
     "hand-written Lean model tied to /repo by differential execution (Go harness -tags verif vs compiled Lean driver) on the inputs listed under input_distribution",
     "Go harness, Python orchestrator/generators/oracles, Lean driver's line parser",
     "facts regenerated from /repo's Go AST on every run: constants and lockset table (harness/cmd/extract), mechanical Go->Lean translation of "
-    "writeToBuf / readToBuf / DecodeChunk / record and hint codecs / GetLogRecordDiskSize / nextPowerOfTwo / remap arithmetic (harness/cmd/trans; its subset, "
-    "effect and primitive tables are trusted; Go panics, read errors and nil-vs-empty are not modelled)",
+    "writeToBuf / readToBuf / DecodeChunk / record and hint codecs / GetLogRecordDiskSize / nextPowerOfTwo / remap arithmetic / the codecs of datatype/meta.go and the "
+    "string record of Set/Get (harness/cmd/trans; its subset, effect and primitive tables are trusted; Go panics, read errors and nil-vs-empty are not modelled)",
 ]
 
 
